@@ -49,7 +49,7 @@ def draw_common(data, tier, small=False):
     return {'fam': fam, 'N': N, 'terms': terms, 'n': n, 'seed': data.draw(st.integers(0, 9999)),
             'method': data.draw(st.sampled_from(['1site', '2site', '12site'])), 'order': data.draw(st.sampled_from(['2nd', '4th', '2nd'])),
             'nsplit': data.draw(st.sampled_from([1, 1, 2])), 'precompute': data.draw(st.sampled_from([False, False, True])),
-            'hermitian_flag': data.draw(st.booleans())}
+            'hermitian_flag': data.draw(st.booleans()), 'hscale': data.draw(st.sampled_from([1, 1, 2, 0.5]))}
 
 
 def draw_exact(data, tier):
@@ -74,9 +74,10 @@ def hamiltonian(case, terms=None):
     for g in groups:
         if np.linalg.norm(HG.dense_h(g, case['fam'], case['N'])) < 1e-12:
             raise Reject('zero_operator')       # terms cancel: generate_mpo returns an MPO without virtual charges, not a generator
+    sc = case.get('hscale', 1)      # a scalar kept in the factor of the MPO
     if case['nsplit'] == 1:
-        return HG.build_mpo(terms, case['fam'], case['N'])
-    return [HG.build_mpo(g, case['fam'], case['N']) for g in groups]
+        return sc * HG.build_mpo(terms, case['fam'], case['N'])
+    return [sc * HG.build_mpo(g, case['fam'], case['N']) for g in groups]
 
 
 def full_state(case):
@@ -177,7 +178,7 @@ def run_exact(case, dt, psi, Hd, v0, mask, sp, tol):
 def execute_exact(case):
     fam, N = case['fam'], case['N']
     ops, sp, named = G.family(fam)
-    Hd = HG.dense_h(case['terms'], fam, N)
+    Hd = case.get('hscale', 1) * HG.dense_h(case['terms'], fam, N)
     mask = G.sector_mask(sp, N, case['n'])
     psi = full_state(case)
     if psi is None:
@@ -233,7 +234,7 @@ def draw_conserve(data, tier):
 def execute_conserve(case):
     fam, N = case['fam'], case['N']
     ops, sp, named = G.family(fam)
-    Hd = HG.dense_h(case['terms'], fam, N)
+    Hd = case.get('hscale', 1) * HG.dense_h(case['terms'], fam, N)
     nH = max(np.linalg.norm(Hd, 2), 1e-12)
     I = mps.product_mpo(ops.I(), N=N)
     C.reseed_backend(case['seed'])
